@@ -41,11 +41,13 @@ def check(run, case):
     kinds = {}
     if ex['parse_error']:
         kinds['not-a-response'] = 'output is not a sequence of response frames: %s (output %s)' % (ex['parse_error'], res.out.hex()[:80])
+    tail = bool(case.get('tail_malformed'))     # the history ends with a frame no server can decode: closing after it is in order
     for e in res.escaped:
-        kinds['escaped:%s' % type(e).__name__] = 'exception left the serving entry: %r' % (e,)
+        if not tail:
+            kinds['escaped:%s' % type(e).__name__] = 'exception left the serving entry: %r' % (e,)
     if res.stuck:
         kinds['stuck'] = 'the handler spins'
-    if res.closed and case['front'] in FE.STREAM:
+    if res.closed and case['front'] in FE.STREAM and not tail:
         kinds['closed'] = 'the front-end closed the connection during a history of valid requests'
     problems, matched = SH.match(case['framing'], ex['exp'], ex['out_frames'])
     run.count('responses_matched', matched)
@@ -91,6 +93,11 @@ def run(run):
                 for rd in case['reads']:
                     for fr in rd:
                         fr[0] = 0
+            if i % 9 == 5 and framing == 'tcp' and front in ('sync-tcp', 'aio-tcp', 'tw-tcp') and case['layout']['single']:
+                # the last read ends with a well-framed request whose PDU is cut short (quantity 3, two data bytes): whatever a
+                # front-end does about that one, the requests received before it - in the same read - have been accepted and are answered
+                case['tail_malformed'] = True
+                run.count('histories_ending_in_malformed_frame')
             if i % 3 == 2 and framing != 'tls' and front in ('aio-tcp', 'aio-udp', 'sync-udp', 'tw-udp', 'sync-tcp'):
                 # datagrams from several senders; several reads queued before the asyncio handler task runs; idle periods longer
                 # than the receive timeout of a threaded TCP connection (between two whole reads, so no frame is cut by them)
